@@ -333,7 +333,9 @@ func (e *Enc) callStatic0(f *frame, fn *ssa.Function, args []Val, bind []Val, po
 		}
 		e.noObl++
 		e.autoDepth++
+		e.nextHookFrom, e.nextHookPos = f, pos
 		_, rs := e.runBody(fn, args, bind, false, nil)
+		e.nextHookFrom = nil
 		e.autoDepth--
 		e.noObl--
 		return pack(rs)
@@ -1118,6 +1120,13 @@ func (e *Enc) callAssert(f *frame, disp string, n int, ca CallAssert, env *Env, 
 	}
 	stone := strings.HasSuffix(label, "!")
 	label = strings.TrimSuffix(label, "!")
+	if f.hookFrom != nil {
+		// hooks inherited from the caller are obligations of the caller: they
+		// are generated although the helper itself generates none
+		saved := e.noObl
+		e.noObl = 0
+		defer func() { e.noObl = saved }()
+	}
 	n0 := len(e.obls)
 	g := e.evalBool(env, ca.Clause)
 	e.oblige("pre", fmt.Sprintf("%s/at.%s#%d.%s", f.name, disp, n, label), g, pos)
